@@ -40,7 +40,7 @@ RecursionKey = Tuple[AnyType, Optional[AnyConversion]]
 class RecursiveChecker(ConversionsVisitor[Conv, Any], ObjectVisitor[Any]):
     def __init__(self, default_conversion: DefaultConversion):
         super().__init__(default_conversion)
-        self._cache = recursion_cache(self.__class__)
+        self._cache = recursion_cache(self.__class__, default_conversion)
         self._recursive: Dict[RecursionKey, Set[RecursionKey]] = {}
         self._all_recursive: Set[RecursionKey] = set()
         self._guard: List[RecursionKey] = []
@@ -123,7 +123,10 @@ _recursion_lock = RLock()
 
 
 @cache  # use @cache for reset
-def recursion_cache(checker_cls: Type[RecursiveChecker]) -> Dict[RecursionKey, bool]:
+def recursion_cache(
+    checker_cls: Type[RecursiveChecker], default_conversion: DefaultConversion
+) -> Dict[RecursionKey, bool]:
+    # recursion depends on the default conversion, e.g. one converting a leaf to its parent
     return {}
 
 
@@ -136,7 +139,7 @@ def is_recursive(
 ) -> bool:
     rec_key = (tp, conversion)
     with _recursion_lock:
-        cache = recursion_cache(checker_cls)
+        cache = recursion_cache(checker_cls, default_conversion)
         if rec_key not in cache:
             checker = checker_cls(default_conversion)
             checker.visit_with_conv(tp, conversion)
